@@ -80,90 +80,93 @@ def run(ctx):
         if rs is None or not rs.ok: continue
         done += 1
         k = m['kind']; key = 'c06/' + r.name[2:]; w = r.code
-        if k == 'det':
-            A = msyms('a0', m['l'], m['n'])
-            ctx.same(key, rs.only().ret, det(A), 'alg=: determinant equals the Leibniz expansion (also after transposition / layout change)', w)
-        elif k == 'detmul':
-            A = msyms('a0', m['l'], m['n']); Bm = msyms('a1', m['l'], m['n'])
-            ctx.same(key, rs.only().ret, det(A) * det(Bm), 'alg=: det(A*B) = det(A)*det(B)', w)
-        elif k in ('inv', 'inv_ip'):
-            A = msyms('a0', m['l'], 4)
-            p = rs.only()
-            G = mgrid(p.ret if k == 'inv' else p.mut('a0'), m['l'], 4)
-            d = det(A); adj = adjugate(A)
-            for i in range(4):
-                for j in range(4):
-                    ok = False
-                    try: ok = (G[i][j] * d == adj[i][j])
-                    except Exception as e: G[i][j] = 'error %r' % e
-                    ctx.ob('%s/(%d,%d)' % (key, i, j), ok, 'alg=: inverted(M)(i,j) * det(M) = adj(M)(i,j)  (so M*inv = inv*M = I whenever det != 0)', w, 'adj(%d,%d)/det' % (i, j), G[i][j])
-        elif k in ('ns', 'af'):
-            a, A, t = aff_syms()
-            At = transpose(A)
-            D = [sum_(A[i][kk] * A[i][kk] for i in range(3)) for kk in range(3)]
-            eps = named('eps:f32')
-            guards = [gt(fabs(D[kk]), eps) for kk in range(3)]
-            if k == 'ns':
-                paths = [rs.only()]
-            else:
-                paths = feasible_paths(rs)
-                ctx.ob(key + '/paths', len(paths) == 8, 'paths: one branch per scale lane (2^3 outcomes) on an affine input', w, 8, len(paths))
-            seen = set()
-            for p in paths:
-                if p.out != 'ret':
-                    ctx.ob(key + '/returns', False, 'paths', w, 'returns', p.out); continue
-                conds = nonconst_conds(p)
-                sel = []
-                bad = []
-                if k == 'af':
-                    for kk in range(3):
-                        if any(c == guards[kk] for c in conds): sel.append(True)
-                        elif any(c == guards[kk].neg() for c in conds): sel.append(False)
-                        else: sel.append(None)
-                    bad = [str(c) for c in conds if not any(c == g or c == g.neg() for g in guards)]
-                    tag = ''.join('T' if s else 'F' for s in sel)
-                    ctx.ob('%s/guards/%s' % (key, tag), None not in sel and not bad and tag not in seen, 'paths: branch conditions are exactly |sum_i A(i,k)^2| > epsilon per lane k', w, [str(g) for g in guards], [str(c) for c in conds])
-                    seen.add(tag)
-                    if None in sel: continue
-                else:
-                    sel = [None] * 3; tag = ''
-                Dv = [(D[kk] if sel[kk] else C(1)) if k == 'af' else C(1) for kk in range(3)]
-                Ei = [[At[i][j] / Dv[i] for j in range(3)] for i in range(3)]
-                E = [[Ei[i][0], Ei[i][1], Ei[i][2], -sum_(Ei[i][j] * t[j] for j in range(3))] for i in range(3)] + [[C(0), C(0), C(0), C(1)]]
-                G = mgrid(p.ret, m['l'], 4)
-                grid_eq(ctx, key + '/closed-form' + ('/' + tag if tag else ''), G, E, 'alg=: fast inverse equals [D^-1 A^T | -D^-1 A^T t ; 0 0 0 1] (D = 1 for the no-scale form and on lanes below epsilon)', w)
-                if k == 'ns' or all(sel):
-                    # substitute a rigid / TRS matrix: out * M = M * out = I as a rational identity
-                    q = [sym('q.' + c) for c in 'wxyz']; s = [sym('s.' + c) for c in 'xyz']
-                    R = quat_rotation(*q)
-                    A2 = [[R[i][j] * (s[j] if k == 'af' else C(1)) for j in range(3)] for i in range(3)]
-                    mapping = {}
-                    for i in range(3):
-                        for j in range(3):
-                            mapping[atom_in('a0[%d]' % (4 * i + j))] = A2[i][j]
-                    G2 = subs_grid(G, mapping)
-                    M2 = affine_matrix(A2, t)
-                    I4 = ident(4)
-                    grid_eq(ctx, key + '/inverts-%s/left' % ('rigid' if k == 'ns' else 'TRS'), matmul(G2, M2), I4, 'alg=: inverse(M) * M = I for M = T(t) R(q)%s (rational parametrisation)' % (' S(s)' if k == 'af' else ''), w)
-                    grid_eq(ctx, key + '/inverts-%s/right' % ('rigid' if k == 'ns' else 'TRS'), matmul(M2, G2), I4, 'alg=: M * inverse(M) = I for M = T(t) R(q)%s (rational parametrisation)' % (' S(s)' if k == 'af' else ''), w)
-                    # agreement with the general inverse there: adj(M2)/det(M2) == G2
-                    d2 = det(M2); adj2 = adjugate(M2)
-                    ok = all(G2[i][j] * d2 == adj2[i][j] for i in range(4) for j in range(4))
-                    ctx.ob(key + '/agrees-with-general-inverse', ok, 'alg=: fast inverse equals adj(M)/det(M) on rigid / TRS matrices', w)
-        elif k in ('nsgen', 'afgen'):
-            # general (non-affine) input: only sibling agreement between layouts is required (same abstract result)
-            other = sc.get(r.name.replace('Rows', 'XX').replace('Cols', 'Rows').replace('XX', 'Cols'))
-            if m['l'] == 'Rows' and other is not None and other.ok:
-                ctx.ob(key + '/paths', len(rs.paths) == len(other.paths), 'alg≡: row-major and column-major instantiation have the same decision tree', w, len(rs.paths), len(other.paths))
-                mapping = {}
-                A = msyms('a0', 'Rows', 4); Bc = msyms('a0', 'Cols', 4)
+        try:
+            if k == 'det':
+                A = msyms('a0', m['l'], m['n'])
+                ctx.same(key, rs.only().ret, det(A), 'alg=: determinant equals the Leibniz expansion (also after transposition / layout change)', w)
+            elif k == 'detmul':
+                A = msyms('a0', m['l'], m['n']); Bm = msyms('a1', m['l'], m['n'])
+                ctx.same(key, rs.only().ret, det(A) * det(Bm), 'alg=: det(A*B) = det(A)*det(B)', w)
+            elif k in ('inv', 'inv_ip'):
+                A = msyms('a0', m['l'], 4)
+                p = rs.only()
+                G = mgrid(p.ret if k == 'inv' else p.mut('a0'), m['l'], 4)
+                d = det(A); adj = adjugate(A)
                 for i in range(4):
                     for j in range(4):
-                        (mono, _), = Bc[i][j].num.t.items()
-                        mapping[mono[0][0]] = A[i][j]
-                for pi, (p, po) in enumerate(zip(feasible_paths(rs), feasible_paths(other))):
-                    if p.out != 'ret' or po.out != 'ret': continue
-                    G = mgrid(p.ret, 'Rows', 4); Go = subs_grid(mgrid(po.ret, 'Cols', 4), mapping)
-                    grid_eq(ctx, '%s/sibling/path%d' % (key, pi), G, Go, 'alg≡: row-major and column-major fast inverse agree in (i,j) coordinates', w)
+                        ok = False
+                        try: ok = (G[i][j] * d == adj[i][j])
+                        except Exception as e: G[i][j] = 'error %r' % e
+                        ctx.ob('%s/(%d,%d)' % (key, i, j), ok, 'alg=: inverted(M)(i,j) * det(M) = adj(M)(i,j)  (so M*inv = inv*M = I whenever det != 0)', w, 'adj(%d,%d)/det' % (i, j), G[i][j])
+            elif k in ('ns', 'af'):
+                a, A, t = aff_syms()
+                At = transpose(A)
+                D = [sum_(A[i][kk] * A[i][kk] for i in range(3)) for kk in range(3)]
+                eps = named('eps:f32')
+                guards = [gt(fabs(D[kk]), eps) for kk in range(3)]
+                if k == 'ns':
+                    paths = [rs.only()]
+                else:
+                    paths = feasible_paths(rs)
+                    ctx.ob(key + '/paths', len(paths) == 8, 'paths: one branch per scale lane (2^3 outcomes) on an affine input', w, 8, len(paths))
+                seen = set()
+                for p in paths:
+                    if p.out != 'ret':
+                        ctx.ob(key + '/returns', False, 'paths', w, 'returns', p.out); continue
+                    conds = nonconst_conds(p)
+                    sel = []
+                    bad = []
+                    if k == 'af':
+                        for kk in range(3):
+                            if any(c == guards[kk] for c in conds): sel.append(True)
+                            elif any(c == guards[kk].neg() for c in conds): sel.append(False)
+                            else: sel.append(None)
+                        bad = [str(c) for c in conds if not any(c == g or c == g.neg() for g in guards)]
+                        tag = ''.join('T' if s else 'F' for s in sel)
+                        ctx.ob('%s/guards/%s' % (key, tag), None not in sel and not bad and tag not in seen, 'paths: branch conditions are exactly |sum_i A(i,k)^2| > epsilon per lane k', w, [str(g) for g in guards], [str(c) for c in conds])
+                        seen.add(tag)
+                        if None in sel: continue
+                    else:
+                        sel = [None] * 3; tag = ''
+                    Dv = [(D[kk] if sel[kk] else C(1)) if k == 'af' else C(1) for kk in range(3)]
+                    Ei = [[At[i][j] / Dv[i] for j in range(3)] for i in range(3)]
+                    E = [[Ei[i][0], Ei[i][1], Ei[i][2], -sum_(Ei[i][j] * t[j] for j in range(3))] for i in range(3)] + [[C(0), C(0), C(0), C(1)]]
+                    G = mgrid(p.ret, m['l'], 4)
+                    grid_eq(ctx, key + '/closed-form' + ('/' + tag if tag else ''), G, E, 'alg=: fast inverse equals [D^-1 A^T | -D^-1 A^T t ; 0 0 0 1] (D = 1 for the no-scale form and on lanes below epsilon)', w)
+                    if k == 'ns' or all(sel):
+                        # substitute a rigid / TRS matrix: out * M = M * out = I as a rational identity
+                        q = [sym('q.' + c) for c in 'wxyz']; s = [sym('s.' + c) for c in 'xyz']
+                        R = quat_rotation(*q)
+                        A2 = [[R[i][j] * (s[j] if k == 'af' else C(1)) for j in range(3)] for i in range(3)]
+                        mapping = {}
+                        for i in range(3):
+                            for j in range(3):
+                                mapping[atom_in('a0[%d]' % (4 * i + j))] = A2[i][j]
+                        G2 = subs_grid(G, mapping)
+                        M2 = affine_matrix(A2, t)
+                        I4 = ident(4)
+                        grid_eq(ctx, key + '/inverts-%s/left' % ('rigid' if k == 'ns' else 'TRS'), matmul(G2, M2), I4, 'alg=: inverse(M) * M = I for M = T(t) R(q)%s (rational parametrisation)' % (' S(s)' if k == 'af' else ''), w)
+                        grid_eq(ctx, key + '/inverts-%s/right' % ('rigid' if k == 'ns' else 'TRS'), matmul(M2, G2), I4, 'alg=: M * inverse(M) = I for M = T(t) R(q)%s (rational parametrisation)' % (' S(s)' if k == 'af' else ''), w)
+                        # agreement with the general inverse there: adj(M2)/det(M2) == G2
+                        d2 = det(M2); adj2 = adjugate(M2)
+                        ok = all(G2[i][j] * d2 == adj2[i][j] for i in range(4) for j in range(4))
+                        ctx.ob(key + '/agrees-with-general-inverse', ok, 'alg=: fast inverse equals adj(M)/det(M) on rigid / TRS matrices', w)
+            elif k in ('nsgen', 'afgen'):
+                # general (non-affine) input: only sibling agreement between layouts is required (same abstract result)
+                other = sc.get(r.name.replace('Rows', 'XX').replace('Cols', 'Rows').replace('XX', 'Cols'))
+                if m['l'] == 'Rows' and other is not None and other.ok:
+                    ctx.ob(key + '/paths', len(rs.paths) == len(other.paths), 'alg≡: row-major and column-major instantiation have the same decision tree', w, len(rs.paths), len(other.paths))
+                    mapping = {}
+                    A = msyms('a0', 'Rows', 4); Bc = msyms('a0', 'Cols', 4)
+                    for i in range(4):
+                        for j in range(4):
+                            (mono, _), = Bc[i][j].num.t.items()
+                            mapping[mono[0][0]] = A[i][j]
+                    for pi, (p, po) in enumerate(zip(feasible_paths(rs), feasible_paths(other))):
+                        if p.out != 'ret' or po.out != 'ret': continue
+                        G = mgrid(p.ret, 'Rows', 4); Go = subs_grid(mgrid(po.ret, 'Cols', 4), mapping)
+                        grid_eq(ctx, '%s/sibling/path%d' % (key, pi), G, Go, 'alg≡: row-major and column-major fast inverse agree in (i,j) coordinates', w)
+        except AssertionError as e:
+            ctx.ob(key + '/paths', False, 'path structure: the analysed function has the expected (branch-free / enumerated) shape', w, 'analysable', str(e))
     ctx.floor('roots analysed', done, len(roots))
     ctx.floor('obligations', ctx.obligations, 300)
